@@ -1,5 +1,5 @@
 # replay of a bounded stand-in violation (C06): re-run native/c06_measure.py
 import sys
-print('post-selected heterodyne on mode 2 of 3: gaussian and bosonic conditional states differ (max 0.34)')
+print('Catstate(1.2, 0.0, p=0.0); BSgate; homodyne(phi=0.70) of q[1] post-selected on 0.0: bosonic leaves q[0] with (<n>, <x>, <x_0.8>, <p>, <x^2>) = [0.5288, 0.0, 0.0, 0.0, 3.4976], the conditional state has [0.4442, 0.0, 0.0, 0.0, 3.3283]')
 print('REPLAY-VIOLATION')
 sys.exit(1)
